@@ -746,6 +746,7 @@ func (e *Encoder) instr(fr *frame, b *ssa.BasicBlock, in ssa.Instruction) {
 				rv.Fields = append(rv.Fields, e.coerce(e.val(fr, r), fr.fn.Signature.Results().At(i).Type()))
 			}
 		}
+		e.atReturn(fr, x)
 		fr.rets = append(fr.rets, ret{reach: e.guard, val: rv, st: e.cur, pos: x.Pos()})
 	case *ssa.Range:
 		e.subsetWarn("range over map/string: iteration order abstracted")
@@ -1543,4 +1544,54 @@ func (e *Encoder) ratFloor(r *ratVal, ceil bool) *ratVal {
 	}
 	adj := c.Ite(c.BVCmp("bvslt", rem, zero), c.BVLit(1, 64), zero)
 	return &ratVal{Num: c.BVBin("bvsub", q, adj), Den: 1}
+}
+
+// atReturn evaluates "at return assert" / "at return#k assert" clauses at a return statement of the
+// verified function (k: 1-based, source order): arg(i) is the i-th returned value and locals have
+// the values they have at that statement.
+func (e *Encoder) atReturn(fr *frame, x *ssa.Return) {
+	if e.pure != 0 || len(e.inlineStack) != 0 || e.contract == nil || fr.fn != e.top {
+		return
+	}
+	ord := 0
+	for _, cl := range e.contract.AtCalls {
+		if cl.Callee != "return" || (cl.Slow && !thoroughTier) {
+			continue
+		}
+		if cl.Ordinal > 0 {
+			if ord == 0 {
+				var ps []token.Pos
+				for _, b := range fr.fn.Blocks {
+					for _, in := range b.Instrs {
+						if r, ok := in.(*ssa.Return); ok {
+							ps = append(ps, r.Pos())
+						}
+					}
+				}
+				sort.Slice(ps, func(i, j int) bool { return ps[i] < ps[j] })
+				for i, p := range ps {
+					if p == x.Pos() {
+						ord = i + 1
+					}
+				}
+			}
+			if ord != cl.Ordinal {
+				continue
+			}
+		}
+		env := e.contractEnv(fr, e.contract, nil, e.cur, e.entry)
+		env.atInstr = x
+		for _, r := range x.Results {
+			env.callArgs = append(env.callArgs, e.val(fr, r))
+		}
+		t := env.trClause(cl)
+		tag := cl.Tag
+		if tag == "" {
+			tag = "at.return"
+		}
+		if o := e.oblige("atcall", tag, "at the return statement: "+cl.Text, t, x.Pos()); o != nil {
+			o.Props = propsOfTag(cl.Tag, e.contract.Props)
+		}
+		e.assume(t)
+	}
 }
